@@ -111,6 +111,10 @@ func c08Run(c *Ctx, capSec int) {
 		if n > 1 {
 			if strings.Contains(q.Name, "flipnx") {
 				d.Kind = "nx"
+			} else if strings.Contains(q.Name, "fliprf") {
+				d.Kind, d.RCode = "rc", 5
+			} else if strings.Contains(q.Name, "fliprc9") {
+				d.Kind, d.RCode = "rc", 9
 			} else {
 				d.Kind, d.RCode = "rc", 2
 			}
@@ -141,8 +145,10 @@ func c08Run(c *Ctx, capSec int) {
 	keys = append(keys, c08Key{First: "close", Kind: "close", Probes: []float64{0.3, 1.3}, NeverCached: true})
 	keys = append(keys, c08Key{First: "silent", Kind: "silent", Probes: []float64{0.2}, NeverCached: true})
 	if capSec == 0 {
-		keys = append(keys, c08Key{First: "ok-n2-ttl12-flipsf", Kind: "flip-servfail", Probes: []float64{1.0, 9.4, 10.0, 10.3, 10.6}, Flip: "sf"})
-		keys = append(keys, c08Key{First: "ok-n2-ttl12-flipnx", Kind: "flip-nx", Probes: []float64{1.0, 9.4, 10.0, 10.3, 10.6}, Flip: "nx"})
+		keys = append(keys, c08Key{First: "ok-n2-ttl16-flipsf", Kind: "flip-servfail", Probes: []float64{1.0, 12.4, 12.9, 13.2, 13.5}, Flip: "sf"})
+		keys = append(keys, c08Key{First: "ok-n2-ttl16-flipnx", Kind: "flip-nx", Probes: []float64{1.0, 12.4, 12.9, 13.2, 13.5}, Flip: "nx"})
+		keys = append(keys, c08Key{First: "ok-n2-ttl16-fliprf", Kind: "flip-refused", Probes: []float64{1.0, 12.4, 12.9, 13.2, 13.5}, Flip: "rf"})
+		keys = append(keys, c08Key{First: "ok-n2-ttl16-fliprc9", Kind: "flip-rcode9", Probes: []float64{1.0, 12.4, 12.9, 13.2, 13.5}, Flip: "rc9"})
 	}
 	if thorough {
 		add("nx-ttl600", "nx-ttl600", 0.5, 10.3, 25.2, 33.6, 35)
@@ -151,6 +157,8 @@ func c08Run(c *Ctx, capSec int) {
 	}
 	copies := c.N(3, 10)
 	h := &chHist{}
+	lag := startLagMonitor()
+	defer lag.Stop()
 	var wg sync.WaitGroup
 	listeners := []string{"tcp", "gnet", "udp", "http"}
 	type runKey struct {
@@ -193,6 +201,11 @@ func c08Run(c *Ctx, capSec int) {
 		return
 	}
 	// ---- judge
+	overloaded := lag.overloaded()
+	c.Ev.Set("max_timer_lag_ms_"+cfgName, lag.Max().Milliseconds())
+	if overloaded {
+		c.Inconclusive(fmt.Sprintf("machine overloaded (timer lag %v): verdicts that depend on the cache clock are dropped", lag.Max()))
+	}
 	byKey := map[string][]*chResp{}
 	for _, r := range h.Resps {
 		byKey[r.Key] = append(byKey[r.Key], r)
@@ -317,7 +330,9 @@ func c08Run(c *Ctx, capSec int) {
 						worst = over
 					}
 				}
-				if expired {
+				if expired && overloaded {
+					c.Ev.Count("lifetime_dependent_candidates_dropped_because_overloaded", 1)
+				} else if expired {
 					c.Violation("served-after-expiry:"+rk.Kind, fmt.Sprintf("[%s] %s (rcode %d): served from cache %v after the end of its lifetime (reference lifetime %ds, maximum_ttl %d)", cfgName, rk.name, r.Rcode, worst, src.life, capSec), cs(r))
 					continue
 				}
@@ -325,7 +340,7 @@ func c08Run(c *Ctx, capSec int) {
 			// displacement
 			if rk.Flip != "" && fromCache && r.Rcode != dns.RcodeSuccess && rk.first != nil && rk.first.Err == "" {
 				ageUB := time.Duration(r.TRecv - fis[0].f.TSend)
-				if ageUB < time.Duration(fis[0].life)*time.Second-1300*time.Millisecond {
+				if ageUB < time.Duration(fis[0].life)*time.Second-2300*time.Millisecond && !overloaded {
 					c.Violation("negative-displaced-positive:"+rk.Kind, fmt.Sprintf("[%s] %s: error response (rcode %d) served from cache %v after the positive reply was fetched (lifetime %ds): a failed refresh displaced the live positive entry", cfgName, rk.name, r.Rcode, ageUB, fis[0].life), cs(r))
 					continue
 				}
